@@ -59,6 +59,44 @@ pub const OPERATIONS: &[Entry] = &[
     (0x0010, "Pause-Printer", &[]),
     (0x0011, "Resume-Printer", &[]),
     (0x0012, "Purge-Jobs", &[]),
+    // IANA IPP registry, operations registered by later documents (RFC 3380, 3995, 3998, PWG 5100.x)
+    (0x0013, "Set-Printer-Attributes", &[]),
+    (0x0014, "Set-Job-Attributes", &[]),
+    (0x0015, "Get-Printer-Supported-Values", &[]),
+    (0x0016, "Create-Printer-Subscriptions", &[]),
+    (0x0017, "Create-Job-Subscriptions", &[]),
+    (0x0018, "Get-Subscription-Attributes", &[]),
+    (0x0019, "Get-Subscriptions", &[]),
+    (0x001A, "Renew-Subscription", &[]),
+    (0x001B, "Cancel-Subscription", &[]),
+    (0x001C, "Get-Notifications", &[]),
+    (0x0022, "Enable-Printer", &[]),
+    (0x0023, "Disable-Printer", &[]),
+    (0x0024, "Pause-Printer-After-Current-Job", &[]),
+    (0x0025, "Hold-New-Jobs", &[]),
+    (0x0026, "Release-Held-New-Jobs", &[]),
+    (0x0027, "Deactivate-Printer", &[]),
+    (0x0028, "Activate-Printer", &[]),
+    (0x0029, "Restart-Printer", &[]),
+    (0x002A, "Shutdown-Printer", &[]),
+    (0x002B, "Startup-Printer", &[]),
+    (0x002C, "Reprocess-Job", &[]),
+    (0x002D, "Cancel-Current-Job", &[]),
+    (0x002E, "Suspend-Current-Job", &[]),
+    (0x002F, "Resume-Job", &[]),
+    (0x0030, "Promote-Job", &[]),
+    (0x0031, "Schedule-Job-After", &[]),
+    (0x0033, "Cancel-Document", &[]),
+    (0x0034, "Get-Document-Attributes", &[]),
+    (0x0035, "Get-Documents", &[]),
+    (0x0036, "Delete-Document", &[]),
+    (0x0037, "Set-Document-Attributes", &[]),
+    (0x0038, "Cancel-Jobs", &[]),
+    (0x0039, "Cancel-My-Jobs", &[]),
+    (0x003A, "Resubmit-Job", &[]),
+    (0x003B, "Close-Job", &[]),
+    (0x003C, "Identify-Printer", &[]),
+    (0x003D, "Validate-Document", &[]),
     (0x4001, "CUPS-Get-Default", &[]),
     (0x4002, "CUPS-Get-Printers", &[]),
     (0x4003, "CUPS-Add-Modify-Printer", &[]),
@@ -88,8 +126,12 @@ pub const DELIMITERS: &[Entry] = &[
 
 pub const VALUE_TAGS: &[Entry] = &[
     (0x10, "unsupported", &[]),
+    (0x11, "default", &[]),
     (0x12, "unknown", &[]),
     (0x13, "no-value", &[]),
+    (0x15, "not-settable", &[]),
+    (0x16, "delete-attribute", &[]),
+    (0x17, "admin-define", &[]),
     (0x21, "integer", &[]),
     (0x22, "boolean", &[]),
     (0x23, "enum", &[]),
